@@ -316,3 +316,123 @@ Theorem C04_props_unchanged_html_meta :
     key_get k (html_meta_props lower p0 (pre ++ a :: post)) = meta_content a.
 Proof. exact html_meta_last_wins. Qed.
 Print Assumptions C04_props_unchanged_html_meta.
+
+(* ================================================================= RTF info group (get_value) *)
+From S2T Require Import C04.ModelRtfText C04.ProofsRtfText C04.ModelSummary.
+
+(* a property value written with plain characters, \'hh, \uN? and surrogate pairs \uH?\uL? (tokens the reader can
+   take apart: token_ok; no surrounding white space) is returned by the repaired get_value exactly as meant,
+   and that text is well-formed Unicode — for every oracle that does not call '?' or '-' a digit *)
+Theorem C04_props_unchanged_rtf :
+  forall (decval : N -> option N) (isspace az_ci : N -> bool) (ts : list token),
+    sane decval = true -> forallb (token_ok decval) ts = true ->
+    str_eqb (strip isspace (written ts)) (written ts) = true ->
+    str_eqb (strip isspace (meaning decval ts)) (meaning decval ts) = true ->
+    info_value decval isspace az_ci true true (written ts) = Ok (meaning decval ts)
+    /\ utf8able (meaning decval ts) = true.
+Proof.
+  intros decval isspace az_ci ts S OK S1 S2. split.
+  - exact (info_round_trip decval isspace az_ci S ts OK S1 S2).
+  - first [exact (meaning_utf8able decval ts OK) | exact (meaning_utf8able decval S ts OK)].
+Qed.
+Print Assumptions C04_props_unchanged_rtf.
+
+Definition price_tokens : list token :=
+  [TChar 80; TChar 114; TUni false (s "8364"); TChar 105; TChar 115; TChar 32; TChar 74; THex 102 99; TChar 32;
+   TPair false (s "55357") false (s "56832"); TUni true (s "3"); TChar 90].
+
+Example C04_rtf_info_hypotheses_satisfiable :
+  sane ascii_decval = true /\ forallb (token_ok ascii_decval) price_tokens = true
+  /\ str_eqb (strip ascii_space (written price_tokens)) (written price_tokens) = true
+  /\ str_eqb (strip ascii_space (meaning ascii_decval price_tokens)) (meaning ascii_decval price_tokens) = true
+  /\ meaning ascii_decval price_tokens = [80; 114; 0x20AC; 105; 115; 32; 74; 0xFC; 32; 0x1F600; 0xFFFD; 90].
+Proof. vm_compute. repeat split. Qed.
+Print Assumptions C04_rtf_info_hypotheses_satisfiable.
+
+(* before the repair get_value dropped the escape and kept its "?" fallback *)
+Theorem C04_props_unchanged_rtf_refuted : exists decval isspace az_ci ts,
+  sane decval = true /\ forallb (token_ok decval) ts = true /\
+  info_value decval isspace az_ci false false (written ts) = Ok (s "Pr?is") /\ meaning decval ts = [80; 114; 0x20AC; 105; 115].
+Proof.
+  exists ascii_decval, ascii_space, ascii_alpha, [TChar 80; TChar 114; TUni false (s "8364"); TChar 105; TChar 115].
+  vm_compute. repeat split.
+Qed.
+Print Assumptions C04_props_unchanged_rtf_refuted.
+
+(* ================================================================= _strip_rtf_simple *)
+(* repaired fallback stripper: every text made of code points gives UTF-8 encodable text *)
+Theorem C04_rtf_simple_utf8able :
+  forall (decval : N -> option N) (isspace az_ci : N -> bool) (T : rtf_tables) (text out : str),
+    repair T = true -> special_ok T scalar = true -> forallb valid text = true ->
+    strip_simple decval isspace az_ci T text = Ok out -> utf8able out = true.
+Proof. exact strip_simple_utf8able. Qed.
+Print Assumptions C04_rtf_simple_utf8able.
+
+Theorem C04_rtf_simple_utf8able_refuted : exists decval isspace az_ci T text out,
+  repair T = false /\ utf8able text = true /\ strip_simple decval isspace az_ci T text = Ok out /\ utf8able out = false.
+Proof.
+  exists ascii_decval, ascii_space, ascii_alpha, (bare_tables false), emoji_rtf, [0xD83D; 0xDE00; 32; 120].
+  vm_compute. repeat split.
+Qed.
+Print Assumptions C04_rtf_simple_utf8able_refuted.
+
+(* it raises exactly when the \uN substitution does (int() refuses more than 4300 digits) … *)
+Theorem C04_rtf_simple_raises_only_digits :
+  forall (decval : N -> option N) (isspace az_ci : N -> bool) (T : rtf_tables) (text : str),
+    raises (strip_simple decval isspace az_ci T text) = raises (usub decval 0 (rig 0 text)).
+Proof. exact strip_simple_raises. Qed.
+Print Assumptions C04_rtf_simple_raises_only_digits.
+
+(* … so "never raises" is false: backslash-u followed by 4301 digits *)
+Theorem C04_rtf_simple_total_refuted : exists decval isspace az_ci T text,
+  strip_simple decval isspace az_ci T text = Raise ValueError.
+Proof.
+  exists ascii_decval, ascii_space, ascii_alpha, (bare_tables true), ([92; 117] ++ repeat 49 4301).
+  vm_compute. reflexivity.
+Qed.
+Print Assumptions C04_rtf_simple_total_refuted.
+
+(* ================================================================= OLE summary / openpyxl properties *)
+(* DOC and PPT: every property is `lenient cp stored`: a str arrives unchanged, bytes are decoded with the
+   recorded code page (UTF-8 before the repair), an absent value is "" *)
+Theorem C04_props_summary_ole :
+  forall (decode : Z -> list N -> str) (cp_aware : bool) (m : ole_meta),
+    let L := lenient decode cp_aware (o_cp m) in
+    doc_props decode cp_aware m = {| p_title := L (o_title m); p_author := L (o_author m); p_subject := L (o_subject m);
+                                     p_keywords := L (o_keywords m); p_description := [] |}
+    /\ ppt_props decode cp_aware m = {| p_title := L (o_title m); p_author := L (o_author m); p_subject := L (o_subject m);
+                                        p_keywords := L (o_keywords m); p_description := L (o_comments m) |}
+    /\ (forall x, L (OStr x) = x) /\ L ONone = []
+    /\ (forall b, L (OBytes b) = decode (if cp_aware then o_cp m else 65001%Z) b).
+Proof. intros. repeat split. Qed.
+Print Assumptions C04_props_summary_ole.
+
+(* XLS after the repair: never raises, same normalisation *)
+Theorem C04_xls_summary_total :
+  forall (decode : Z -> list N -> str) (strict : list N -> option str) (m : ole_meta),
+    let L := lenient decode true (o_cp m) in
+    xls_props decode strict true m = Ok {| p_title := L (o_title m); p_author := L (o_author m); p_subject := L (o_subject m);
+                                           p_keywords := []; p_description := [] |}.
+Proof. intros. reflexivity. Qed.
+Print Assumptions C04_xls_summary_total.
+
+(* XLS before: an author stored in the ANSI code page (bytes that are not UTF-8) makes the reader raise *)
+Theorem C04_xls_summary_total_refuted : exists decode strict m,
+  xls_props decode strict false m = Raise UnicodeDecodeError.
+Proof.
+  exists (fun _ b => b), (fun b => if forallb (fun c => c <? 128) b then Some b else None),
+    {| o_cp := 1252; o_title := ONone; o_author := OBytes [103; 101; 0xF6; 114; 103]; o_subject := ONone;
+       o_keywords := ONone; o_comments := ONone |}.
+  reflexivity.
+Qed.
+Print Assumptions C04_xls_summary_total_refuted.
+
+(* XLSX: a stored property is reported unchanged, an absent one as "" *)
+Theorem C04_props_unchanged_xlsx : forall p : xlsx_properties,
+  (forall t, x_title p = Some t -> p_title (xlsx_props p) = t) /\
+  (forall t, x_creator p = Some t -> p_author (xlsx_props p) = t) /\
+  (forall t, x_keywords p = Some t -> p_keywords (xlsx_props p) = t) /\
+  (forall t, x_description p = Some t -> p_description (xlsx_props p) = t) /\
+  (x_title p = None -> p_title (xlsx_props p) = []).
+Proof. intro p. repeat split; intros; simpl; rewrite H; reflexivity. Qed.
+Print Assumptions C04_props_unchanged_xlsx.
